@@ -274,6 +274,20 @@ def run(ctx: Ctx) -> None:
     whole = ({"disp_min_range": f"float(np.nanmin({dmn}))", "disp_max_range": f"float(np.nanmax({dmx}))"}, {"disp_min_range": f"np.nanmin({dmn})", "disp_max_range": f"np.nanmax({dmx})"})
     oki = gi in whole
     ctx.ob("C15.RANGE", FZP, inv[0] if inv else f, f"invalid pixels get {gi}", oki, expected=f"the whole interval of the level, untruncated: (float(np.nanmin({dmn})), float(np.nanmax({dmx})))", detail="invalid or border coarse pixels must search the whole user interval of the level; `int(...)` truncates a fractional coarse bound toward zero (user [-5, 1] with factor 2 becomes [-4, 0] at the finer level)")
+    # nothing else rewrites the range maps: allocation, block stores, the invalid fallback, the up-sampling
+    for name in ("disp_min_range", "disp_max_range"):
+        defs_n = fd.all_defs(name)
+        extra = [x for x in defs_n[1:] if not (isinstance(x[1], ast.Call) and (dotted(x[1].func) or "").split(".")[-1] == "zoom")]
+        # in-place rewrites: <ufunc>(..., out=map), map op= ..., map[<anything but the block slices / invalid_ind>] = ...
+        for c in calls_in(f):
+            if any(k.arg == "out" and canon(k.value) == name for k in c.keywords):
+                extra.append((c, c, None))
+        for st2 in walk_no_nested(f):
+            if isinstance(st2, ast.AugAssign) and canon(st2.target) == name:
+                extra.append((st2, st2.value, None))
+            if isinstance(st2, ast.Assign) and isinstance(st2.targets[0], ast.Subscript) and canon(st2.targets[0].value) == name and canon(st2.targets[0].slice) not in ("invalid_ind", "(y_begin:y_end:, x_begin:x_end:)"):
+                extra.append((st2, st2.value, None))
+        ctx.ob("C15.RANGE", FZP, extra[0][0] if extra else defs_n[0][0], f"{name} is re-bound only by the up-sampling ({len(defs_n) - 1} re-binding(s))", not extra, expected=f"{name} = zoom({name}, ...) as the only re-binding", detail=f"`{src(extra[0][0])[:90] if extra else ''}` post-processes the range map (clipping, rounding, ...): the interval handed to the finer level is no longer scale_factor x [min - marge, max + marge] of the window")
     zm = [c for c in calls_in(f) if (dotted(c.func) or "").split(".")[-1] == "zoom"]
     okz = len(zm) == 2 and all(canon(kwarg(c, "order")) == "0" and canon(kwarg(c, "mode")) == "'nearest'" and canon(c.args[1]) == "self._scale_factor" for c in zm)
     ctx.ob("C15.RANGE", FZP, zm[0] if zm else f, f"range maps up-sampled by {src(zm[0])[:80] if zm else '?'}", okz, expected="zoom(map, self._scale_factor, order=0, mode='nearest')", detail="order-0 replication of each coarse pixel; with scipy's default mode='constant' (cval=0) the last output sample can fall just outside the array for factors that are not powers of two and the last row / column of the grids becomes [0, 0]")
@@ -341,6 +355,8 @@ SPEC = PropSpec(
 )
 
 MUTANTS = [
+    {"id": "range-maps-clipped-in-place", "file": FZP, "old": "        if self._scale_factor == 1:\n            return disp_min_range, disp_max_range\n", "new": "        np.clip(disp_max_range, float(np.nanmin(disp_min)), float(np.nanmax(disp_max)), out=disp_max_range)\n        if self._scale_factor == 1:\n            return disp_min_range, disp_max_range\n"},
+    {"id": "range-maps-clipped-to-user-interval", "file": FZP, "old": "        if self._scale_factor == 1:\n            return disp_min_range, disp_max_range\n", "new": "        disp_min_range = np.clip(disp_min_range, np.nanmin(disp_min), np.nanmax(disp_max))\n        if self._scale_factor == 1:\n            return disp_min_range, disp_max_range\n"},
     {"id": "whole-interval-truncated-toward-zero", "file": FZP, "old": "        disp_min_range[invalid_ind] = float(np.nanmin(disp_min))\n", "new": "        disp_min_range[invalid_ind] = int(np.nanmin(disp_min))\n"},
     {"id": "zoom-default-constant-mode", "file": FZP, "old": 'disp_max_range = zoom(disp_max_range, self._scale_factor, order=0, mode="nearest")', "new": "disp_max_range = zoom(disp_max_range, self._scale_factor, order=0)"},
     {"id": "range-maps-integer-typed", "file": FZP, "old": '        disp_min_range = np.full_like(disp["disparity_map"].data, float(np.nanmin(disp_min)))\n', "new": '        disp_min_range = np.full((ncol, nrow), int(np.nanmin(disp_min)))\n'},
